@@ -418,7 +418,10 @@ def parse_dispatch():
     m = re.search(r"loop \{ (.*?)let instr = unsafe \{ \*bytecode_ptr\.add\(ip\) \}; ip \+= 1;", run)
     if not m:
         raise ExtractError("run.rs: `loop { ... let instr = unsafe { *bytecode_ptr.add(ip) }; ip += 1;` not found")
-    fetch_guarded = m.group(1).startswith("if ip >= bytecode_len { self.frames.pop();") and "continue; }" in m.group(1)
+    # the guard is the FIRST statement of the loop body, pops the frame (other bookkeeping, e.g. closing the
+    # frame's upvalues, may precede the pop) and never falls through to the fetch
+    g = m.group(1)
+    fetch_guarded = g.startswith("if ip >= bytecode_len {") and "self.frames.pop();" in g.split("continue; }")[0] and "continue; }" in g
     # 2. register macros: every raw register access of run.rs sits in a reg_* macro right behind check_reg!(idx)
     macro_bodies = re.findall(r"macro_rules! (reg_\w+) \{ \(\$idx:expr(?:, \$val:expr)?\) => \{\{ let idx = \$idx; check_reg!\(idx\); (.*?)\}\}; \}", run)
     in_macros = sum(b.count("regs_ptr.add(") for _, b in macro_bodies)
